@@ -6,7 +6,7 @@
 (* functions applied once, twice, three times, nested, imported; rec in    *)
 (* rec; explicit references).  One initial state per program.              *)
 (***************************************************************************)
-EXTENDS EvalOp, Families, Json
+EXTENDS EvalOp, Families, Json, IOUtils
 
 CONSTANTS GraphSize, Members         \* Members: "graphs" or "inst"
 
